@@ -28,6 +28,9 @@ RAISE_KINDS = ["KeyError", "ZeroDivisionError", "IndexError", "TypeError", "Valu
 EXC = {"KeyError": KeyError, "ZeroDivisionError": ZeroDivisionError, "IndexError": IndexError,
        "TypeError": TypeError, "ValueError": ValueError, "RuntimeError": RuntimeError,
        "AttributeError": AttributeError, "StopIteration": StopIteration}
+ZERO_TYPE = {"int": "int", "float": "float", "negzero": "float", "frac": "Fraction", "bool": "bool",
+             "tuple": "tuple", "none": "NoneType"}
+DEFAULT_ZERO_SHAPES = ("none", "keep-only", "keep-only-kw")
 TRUE_SPELL = {"bool": True, "int": 1, "str": "yes", "list": [0], "float": 0.5}
 FALSE_SPELL = {"bool": False, "int": 0, "str": "", "list": [], "none": None, "float": 0.0}
 
@@ -269,7 +272,8 @@ def _impl(c):
             try:
                 v = next(it)
                 qa = _len(smix, "_not_playing")
-                o = {"out": enc_value(v), "started": (qb - qa) if qb is not None and qa is not None else None}
+                o = {"out": enc_value(v), "started": (qb - qa) if qb is not None and qa is not None else None,
+                     "t": type(v).__name__}
             except StopIteration:
                 o = "stop"
             except Exception as e:
@@ -399,6 +403,20 @@ def compare(c, io, drv):
             i, k, _op_of(c, i, k)["op"], io["mixers"][i][k][0] if k >= 0 else None,
             drv["mixers"][i]["spec"][k] if k >= 0 else None, drv["mixers"][i].get("starts"),
             drv["mixers"][i].get("accepted"))))
+    # an idle sample IS the zero value (theorem zero_after_end / outAt over no due item): same Python type as
+    # the zero the mixer was built with — 0.0 when `zero` is left to its default; a float zero makes every
+    # sample a float
+    for i, (steps, pay) in enumerate(zip(io["mixers"], drv["mixers"])):
+        m = c["mixers"][i]
+        zt = "float" if m.get("shape") in DEFAULT_ZERO_SHAPES else ZERO_TYPE[m["zk"]]
+        for k, (st, mo) in enumerate(zip(steps, pay["model"])):
+            o = st[0]
+            if isinstance(o, dict) and "t" in o and isinstance(mo[0], dict) and "out" in mo[0]:
+                idle = mo[2] == 0 and mo[0]["started"] == 0
+                if (idle and o["t"] != zt) or (zt == "float" and o["t"] != "float"):
+                    out.append(("spec", "mixer %d step %d: sample of Python type %s, the zero value is a %s%s" % (
+                        i, k, o["t"], zt, " (idle sample: must be the zero value itself)" if idle else "")))
+                    break
     # the spec's clock is the sum of the deltas of the adds the REAL object accepted
     for i, (steps, pay) in enumerate(zip(io["mixers"], drv["mixers"])):
         T = Fraction(0)
@@ -427,7 +445,7 @@ def classify(c, io, drv):
     dm, ds = first_diffs(c, io, drv)
     if ds is None:
         if dm is None:
-            return "sys:clock"
+            return "sys:clock-or-type"
         return "sys:model:%s:%s" % (_op_of(c, dm[0], dm[1])["op"], dm[2])
     i, k = ds
     a, b = io["mixers"][i][k][0], drv["mixers"][i]["spec"][k]
